@@ -1,6 +1,7 @@
 import PyecoreModel.Lemmas.Commands
 import PyecoreModel.Lemmas.StoreStep
 import PyecoreModel.Lemmas.CommandsInverse
+import PyecoreModel.Lemmas.Compound
 /-!
 # C06 — Undo restores the previous model state; redo restores the next one  (**partial**)
 
@@ -21,8 +22,14 @@ back the state the word started from and k redos the state and stack after it; `
 `C06_good_exec`: the invariants these need hold in every reachable state (`Lemmas/CommandsInverse.lean`).
 **Not proved**: the whole-model inverse law for references *with an opposite* — it is false of the code as it is
 (the owner is re-appended on the other end; recorded finding F-C06-1, mirrored by the model and visible in
-`C06_counterexample_opposite_order`) — and `Delete`/`Compound`, which the model does not contain; those are decided
-by the check's correspondence (Set/Add/Remove/Move words) and oracle (all six command kinds) only.
+`C06_counterexample_opposite_order`) — and `Delete`, which the model does not contain; it is decided by the check's
+oracle only.  (5) **`Compound`** (`Model/Compound.lean`, tied by the `kcmd` correspondence): `can_execute` of every
+sub-command is asked before any runs, `can_undo` after all ran; `C06_compound_of_one` — the two halves of a command, met
+by one state, are the command alone; `C06_compound_undo` / `C06_compound_redo` — when the snapshots are stable along the
+run and the sub-commands are covered ones, a compound that reports `can_undo` is undone to exactly the state before it
+and redone to exactly the state after it, as one stack entry.  When the snapshots are *not* stable, or `can_undo`
+refuses, the code does not restore the state (recorded finding F-C06-3; `C06_compound_refusal_witness` shows it in the
+model).
 -/
 namespace Store
 
@@ -281,5 +288,65 @@ example : (∀ op ∈ exOps6b, ArityOK exMM6b op) ∧ okL exMM6b ({}, run exMM6b
   intro op hop
   simp only [exOps6b, List.mem_cons, List.mem_nil_iff, or_false] at hop
   rcases hop with rfl | rfl | rfl | rfl | rfl <;> simp [ArityOK, exMM6b]
+
+
+/-! ### Compound commands -/
+
+/-- a command executed alone is a compound of one: what `can_execute` fixes (`snap`) and what `do_execute` fixes
+    (`Snap.fix`), when both meet the same state, are `prepare` -/
+theorem C06_compound_of_one (mm : MM) (s : St) (sp : Spec) : prepare mm s sp = joinPrep mm s sp :=
+  prepare_snap_fix mm s sp
+
+/-- **Undo of a `Compound`**: from every state satisfying the invariants and every stack, a compound whose sub-commands
+    (any number, any of Set / Add / Remove / Move, the same feature several times if one likes) keep their snapshots
+    stable along the run and are covered commands, which ran to the end and then reports `can_undo`: executing it
+    pushes one entry, and `undo` brings back exactly the Store state it started from, moving the cursor back by one. -/
+theorem C06_compound_undo (mm : MM) (hwf : mm.WF) (hwft : mm.WFT) (ks : KStack) (s : St) (sps : List Spec)
+    (ps : List Snap) (hok : ks.n ≤ ks.stack.length) (hg : Good mm s) (hsnap : snapAll mm s sps = .ok ps)
+    (hst : StableCov mm s sps ps) (s' : St) (cs : List Cmd) (hrun : runAll mm s ps = .ok s' cs)
+    (hcan : canUndoAll mm s' cs = some true) :
+    kstep mm ks s (.exec sps) = ({ stack := ks.stack.take ks.n ++ [cs], n := ks.n + 1 }, s', "ok") ∧
+    kstep mm { stack := ks.stack.take ks.n ++ [cs], n := ks.n + 1 } s' .undo
+      = ({ stack := ks.stack.take ks.n ++ [cs], n := ks.n }, s, "ok") :=
+  compound_stack_undo mm hwf hwft ks s sps ps hok hg hsnap hst s' cs hrun hcan
+
+/-- **Redo of a `Compound`** (same hypotheses, `can_undo` not needed): `redo` after the undo brings back exactly the
+    state and the stack after the compound. -/
+theorem C06_compound_redo (mm : MM) (hwf : mm.WF) (hwft : mm.WFT) (ks : KStack) (s : St) (sps : List Spec)
+    (ps : List Snap) (hok : ks.n ≤ ks.stack.length) (hg : Good mm s)
+    (hst : StableCov mm s sps ps) (s' : St) (cs : List Cmd) (hrun : runAll mm s ps = .ok s' cs) :
+    kstep mm { stack := ks.stack.take ks.n ++ [cs], n := ks.n } s .redo
+      = ({ stack := ks.stack.take ks.n ++ [cs], n := ks.n + 1 }, s', "ok") :=
+  compound_stack_redo mm hwf hwft ks s sps ps hok hg hst s' cs hrun
+
+/-- even without asking `can_undo`: the sub-commands' bare `undo`s, in reverse order, all succeed and restore the state -/
+theorem C06_compound_undo_raw (mm : MM) (hwf : mm.WF) (hwft : mm.WFT) (sps : List Spec) (ps : List Snap) (s s' : St)
+    (cs : List Cmd) (hg : Good mm s) (hst : StableCov mm s sps ps) (hrun : runAll mm s ps = .ok s' cs) :
+    undoAll mm s' cs.reverse = (s, true) :=
+  (compound_undo mm hwf hwft sps ps s s' cs hg hst hrun).1
+
+/-! non-vacuity: three sub-commands, two of them on the same list attribute, over `exMM6b` -/
+def exComp6 : List Spec := [.add 0 2 (.int 3) (some 99), .set 0 1 (.obj 2), .add 0 2 (.int 4) (some 0)]
+def exSnaps6 : List Snap := [.add 0 2 (.int 3) (some 99), .set 0 1 (.obj 2), .add 0 2 (.int 4) (some 0)]
+
+example : snapAll exMM6b (run exMM6b exOps6b) exComp6 = .ok exSnaps6 ∧
+    StableCov exMM6b (run exMM6b exOps6b) exComp6 exSnaps6 ∧
+    (kstep exMM6b {} (run exMM6b exOps6b) (.exec exComp6)).2.2 = "ok" ∧
+    (kstep exMM6b {} (run exMM6b exOps6b) (.exec exComp6)).2.1.as 0 2 = [.int 4, .int 1, .int 2, .int 3] ∧
+    (match runAll exMM6b (run exMM6b exOps6b) exSnaps6 with
+     | .ok s' cs => canUndoAll exMM6b s' cs == some true
+     | _ => false) = true := by
+  refine ⟨by decide, stableCov_of_B _ _ _ _ (by decide), by decide, by decide, by decide⟩
+
+/-- **F-C06-3 in the model**: `Compound(Add(x, f, 7), Remove(x, f, value=7))` executes; its snapshots are stable and its
+    sub-commands covered, so the bare undos would restore the state (`C06_compound_undo_raw`) — but `Add.can_undo` looks
+    for the added value in the collection *after the whole compound ran*, does not find it, and the stack's `undo` does
+    nothing: the state stays the one after the compound. -/
+theorem C06_compound_refusal_witness :
+    let s0 := run exMM6b exOps6b
+    let r1 := kstep exMM6b {} s0 (.exec [.add 0 2 (.int 7) none, .remove 0 2 (some (.int 7)) none])
+    let r2 := kstep exMM6b r1.1 r1.2.1 .undo
+    r1.2.2 = "ok" ∧ r1.2.1.as 0 2 = s0.as 0 2 ∧ r2.2.2 = "err" ∧ r2.1.n = 1 := by
+  decide
 
 end Store
